@@ -140,7 +140,7 @@ func C30(e *simkern.Env) {
 					c.kind = "own"
 					rows := 1 + tp.Draw(6)
 					c.spec.Rows = rows
-					c.spec.Pad = tp.Pick(0, 30, 200, 1500)
+					c.spec.Pad = tp.Pick(0, 30, 200, 1500, -1500, -20000) // negative: incompressible noise of that size
 					cm := arrow.Metadata{}
 					switch tp.Draw(3) {
 					case 1:
@@ -434,7 +434,7 @@ func init() {
 	Registry["C30"] = &Info{
 		Run:   C30,
 		Level: "exploration",
-		Rule:  "each run draws fault-free or fault-injecting, 1-3 concurrent cases and the retry budget; a case draws a schema (1-3 typed columns + pad, optional schema metadata), then either (own) a data batch with optional nulls / custom metadata, a threshold around its buffer size and a compression setting, runs the real externalize against the simulated store and resolves the real pointer (or an old-style pointer without checksum), or (peer) stores a stream composed of data / log / pointer batches in any order, raw or zstd, and resolves a pointer to it with or without checksum; in fault-injecting runs the scheduler may hit the stored object between upload and any fetch attempt with bit rot, truncation, loss, a wrong Content-Encoding header, or substitution by another composed stream; distinct = distinct schedule+fault fingerprint; non-trivial = at least one pointer was resolved",
+		Rule:  "each run draws fault-free or fault-injecting, 1-3 concurrent cases and the retry budget; a case draws a schema (1-3 typed columns + pad, optional schema metadata), then either (own) a data batch with optional nulls / custom metadata and a compressible or incompressible (pseudo-random, 1.5 or 20 kB) pad column, a threshold around its buffer size and a compression setting, runs the real externalize against the simulated store and resolves the real pointer (or an old-style pointer without checksum), or (peer) stores a stream composed of data / log / pointer batches in any order, raw or zstd, and resolves a pointer to it with or without checksum; in fault-injecting runs the scheduler may hit the stored object between upload and any fetch attempt with bit rot, truncation, loss, a wrong Content-Encoding header, or substitution by another composed stream; distinct = distinct schedule+fault fingerprint; non-trivial = at least one pointer was resolved",
 		Real:  []string{"vgirpc.MaybeExternalizeBatch/externalizeBatchCtx", "vgirpc.ResolveExternalLocation, fetchExternalData, decompressZstdCapped, batchMetadata", "net/http.Client (redirect/response handling)", "arrow-go IPC, klauspost zstd", "testing/synctest clock (retry delays)"},
 		Stub:  []string{"object store behind ExternalStorage (fetchw.Store)", "origin behind http.RoundTripper (fetchw.Origin)", "peer uploader / pointer wire (arrow-go IPC in the harness)"},
 		Quick: 800, Thorough: 40000,
